@@ -144,6 +144,9 @@ func GenString(rt *rapid.T) []byte {
 	case k == 5:
 		return []byte(rapid.String().Draw(rt, "anystr"))
 	case k == 6:
+		if rapid.IntRange(0, 3).Draw(rt, "errstr") == 0 {
+			return []byte("ERR") // the corpus marshalers (MVal, TVal) fail on this value
+		}
 		return rapid.SliceOfN(rapid.Byte(), 0, 24).Draw(rt, "rawbytes")
 	default:
 		n := rapid.IntRange(1, 10).Draw(rt, "npieces")
